@@ -87,17 +87,17 @@ theorem cookieChallenge_spec (w : RealWorld) (c : CookieSt) (home : Bytes) :
 
 /-- First step of DBUS_COOKIE_SHA1 for a user name with a passwd entry and a usable (or absent) keyring
 directory: a challenge, and the session's cookie is in the file. -/
-theorem cookie_step_one_ok (w : RealWorld) (c : CookieSt) (user : Bytes) (e : PwEnt)
-    (h0 : c.stepNum = 0) (hp : parseInt user = none) (hn : getpwnam w.cfg user = some e)
+theorem cookie_step_one_ok (w : RealWorld) (c : CookieSt) (arg user : Bytes) (e : PwEnt)
+    (h0 : c.stepNum = 0) (hp : resolveUser w.cfg arg = some user) (hn : getpwnam w.cfg user = some e)
     (hd : lookupDir w e.home ≠ .bad) :
     ∃ w1 c1 cid,
-      cookieStep w c (some user) =
+      cookieStep w c (some arg) =
         (w1, c1, .challenge (w.cfg.ctx ++ 32 :: natToDec cid ++ 32 :: c1.challenge)) ∧
       c1.stepNum = 1 ∧ c1.username = some user ∧ c1.home = e.home ∧ c1.cookieId = some cid ∧ w1.cfg = w.cfg ∧
       (∃ old, lookupFile w1 e.home = some (old ++ [⟨cid, w.cfg.now, c1.cookie⟩])) := by
   unfold cookieStep
   simp only [h0, if_true]
-  unfold cookieStepOne resolveUser
+  unfold cookieStepOne
   simp only [hp, hn]
   cases hdir : lookupDir w e.home with
   | bad => exact absurd hdir hd
@@ -150,15 +150,17 @@ theorem real_start_cookie (w : RealWorld) : real.start w (lit "DBUS_COOKIE_SHA1"
   have : kindOf (lit "DBUS_COOKIE_SHA1") = some .cookie := by decide
   simp [real, this]
 theorem real_step_anon (w : RealWorld) (arg) : real.step w .anon arg = (w, .anon, .accept) := rfl
-theorem real_step_ext0 (w : RealWorld) (uid : Nat) (arg) :
-    real.step w (.ext false (some uid)) arg = (w, .ext true (some uid), .challenge []) := rfl
-theorem real_step_ext1 (w : RealWorld) (uid : Nat) (arg) :
-    real.step w (.ext true (some uid)) arg = (w, .ext true (some uid), .accept) := rfl
+theorem real_step_ext0 (w : RealWorld) (uid : Int) (e : PwEnt) (arg) (h : getpwuidI w.cfg uid = some e) :
+    real.step w (.ext false (some uid)) arg = (w, .ext true (some uid), .challenge []) := by
+  simp [real, h]
+theorem real_step_ext1 (w : RealWorld) (uid : Int) (e : PwEnt) (arg) (h : getpwuidI w.cfg uid = some e) :
+    real.step w (.ext true (some uid)) arg = (w, .ext true (some uid), .accept) := by
+  simp [real, h]
 theorem real_step_cookie (w : RealWorld) (c : CookieSt) (arg) :
     real.step w (.cookie c) arg = ((cookieStep w c arg).1, .cookie (cookieStep w c arg).2.1, (cookieStep w c arg).2.2) := rfl
 theorem real_user_anon (w : RealWorld) : real.userName w .anon = some anonymousUser := rfl
-theorem real_user_ext (w : RealWorld) (ok : Bool) (uid : Nat) :
-    real.userName w (.ext ok (some uid)) = (getpwuid w.cfg uid).map (·.name) := rfl
+theorem real_user_ext (w : RealWorld) (ok : Bool) (uid : Int) :
+    real.userName w (.ext ok (some uid)) = (getpwuidI w.cfg uid).map (·.name) := rfl
 theorem real_user_cookie (w : RealWorld) (c : CookieSt) : real.userName w (.cookie c) = c.username := rfl
 
 /-- ANONYMOUS: `AUTH ANONYMOUS` is answered OK, `BEGIN` then authenticates. -/
@@ -186,8 +188,8 @@ theorem anonymous_lines (s : Server RealWorld Inst) (hs : s.state = .waitingForA
 
 /-- EXTERNAL with peer credentials: `AUTH EXTERNAL` -> `DATA`, `DATA` -> `OK`, `BEGIN` authenticates as
 the passwd name of the peer uid. -/
-theorem external_lines (s : Server RealWorld Inst) (uid : Nat) (e : PwEnt) (hs : s.state = .waitingForAuth)
-    (hc : s.world.cfg.creds = some uid) (hu : getpwuid s.world.cfg uid = some e) :
+theorem external_lines (s : Server RealWorld Inst) (uid : Int) (e : PwEnt) (hs : s.state = .waitingForAuth)
+    (hc : s.world.cfg.creds = some uid) (hu : getpwuidI s.world.cfg uid = some e) :
     let o1 := handle real s (lit "AUTH EXTERNAL")
     let o2 := handle real o1.srv (lit "DATA")
     let o3 := handle real o2.srv (lit "BEGIN")
@@ -208,14 +210,14 @@ theorem external_lines (s : Server RealWorld Inst) (uid : Nat) (e : PwEnt) (hs :
       ⟨{ s with cur := some (lit "EXTERNAL", .ext true (some uid)), state := .waitingForData }, [wData], .ok,
         some (lit "EXTERNAL", .challenge []), false⟩ := by
     simp [handle, e1, e2, e3, authAUTH, hs, e4, real_offers_external, stepAuth, decodeResponse,
-      real_start_external, hc, real_step_ext0, hexlify]
+      real_start_external, hc, real_step_ext0 _ _ e _ hu, hexlify]
   simp only
   rw [h1]
   have h2 : handle real { s with cur := some (lit "EXTERNAL", .ext true (some uid)), state := .waitingForData }
       (lit "DATA") =
       ⟨{ s with cur := some (lit "EXTERNAL", .ext true (some uid)), state := .waitingForBegin },
         [wOk ++ s.serverGuid], .ok, some (lit "EXTERNAL", .accept), false⟩ := by
-    simp [handle, d1, d2, d3, authDATA, stepAuth, decodeResponse, real_step_ext1]
+    simp [handle, d1, d2, d3, authDATA, stepAuth, decodeResponse, real_step_ext1 _ _ e _ hu]
   rw [h2]
   simp [handle, f1, f2, f3, authBEGIN, real_user_ext, hu]
 
@@ -238,47 +240,47 @@ def cookieDataLine (sha1 : Bytes → Bytes) (chal cc cookie : Bytes) : Bytes :=
   lit "DATA " ++ hexlify (cc ++ 32 :: cookieHash sha1 chal cc cookie)
 
 /-- DBUS_COOKIE_SHA1 with the right cookie: challenge, OK, BEGIN authenticates as the named user. -/
-theorem cookie_lines (s : Server RealWorld Inst) (user cc : Bytes) (e : PwEnt)
+theorem cookie_lines (s : Server RealWorld Inst) (arg user cc : Bytes) (e : PwEnt)
     (hs : s.state = .waitingForAuth)
-    (hu0 : user ≠ []) (hua : isAscii user = true) (hup : parseInt user = none)
+    (hu0 : arg ≠ []) (hua : isAscii arg = true) (hup : resolveUser s.world.cfg arg = some user)
     (hun : getpwnam s.world.cfg user = some e) (hud : lookupDir s.world e.home ≠ .bad)
     (hcc : cc ≠ []) (hncc : NoSpace cc) (hcca : isAscii cc = true)
     (hsha : ∀ x, s.world.cfg.sha1 x ≠ []) :
     ∃ (c1 : CookieSt) (cid : Nat),
-      (handle real s (cookieAuthLine user)).res = .ok ∧
-      (handle real s (cookieAuthLine user)).srv.authenticated = s.authenticated ∧
-      (handle real s (cookieAuthLine user)).sent =
+      (handle real s (cookieAuthLine arg)).res = .ok ∧
+      (handle real s (cookieAuthLine arg)).srv.authenticated = s.authenticated ∧
+      (handle real s (cookieAuthLine arg)).sent =
         [wData ++ hexlify (s.world.cfg.ctx ++ 32 :: natToDec cid ++ 32 :: c1.challenge)] ∧
-      (∃ old, lookupFile (handle real s (cookieAuthLine user)).srv.world e.home =
+      (∃ old, lookupFile (handle real s (cookieAuthLine arg)).srv.world e.home =
         some (old ++ [⟨cid, s.world.cfg.now, c1.cookie⟩])) ∧
-      (handle real (handle real s (cookieAuthLine user)).srv
+      (handle real (handle real s (cookieAuthLine arg)).srv
         (cookieDataLine s.world.cfg.sha1 c1.challenge cc c1.cookie)).res = .ok ∧
-      (handle real (handle real s (cookieAuthLine user)).srv
+      (handle real (handle real s (cookieAuthLine arg)).srv
         (cookieDataLine s.world.cfg.sha1 c1.challenge cc c1.cookie)).sent = [wOk ++ s.serverGuid] ∧
-      (handle real (handle real s (cookieAuthLine user)).srv
+      (handle real (handle real s (cookieAuthLine arg)).srv
         (cookieDataLine s.world.cfg.sha1 c1.challenge cc c1.cookie)).srv.authenticated = s.authenticated ∧
-      (handle real (handle real (handle real s (cookieAuthLine user)).srv
+      (handle real (handle real (handle real s (cookieAuthLine arg)).srv
         (cookieDataLine s.world.cfg.sha1 c1.challenge cc c1.cookie)).srv (lit "BEGIN")).res = .ok ∧
-      (handle real (handle real (handle real s (cookieAuthLine user)).srv
+      (handle real (handle real (handle real s (cookieAuthLine arg)).srv
         (cookieDataLine s.world.cfg.sha1 c1.challenge cc c1.cookie)).srv (lit "BEGIN")).srv.authenticated = true ∧
-      (handle real (handle real (handle real s (cookieAuthLine user)).srv
+      (handle real (handle real (handle real s (cookieAuthLine arg)).srv
         (cookieDataLine s.world.cfg.sha1 c1.challenge cc c1.cookie)).srv (lit "BEGIN")).srv.guid = some user := by
   -- line 1
-  have a1 : cookieAuthLine user = lit "AUTH" ++ 32 :: (lit "DBUS_COOKIE_SHA1" ++ 32 :: hexlify user) := rfl
-  have a2 : splitCmd (cookieAuthLine user) = (lit "AUTH", lit "DBUS_COOKIE_SHA1" ++ 32 :: hexlify user) := by
+  have a1 : cookieAuthLine arg = lit "AUTH" ++ 32 :: (lit "DBUS_COOKIE_SHA1" ++ 32 :: hexlify arg) := rfl
+  have a2 : splitCmd (cookieAuthLine arg) = (lit "AUTH", lit "DBUS_COOKIE_SHA1" ++ 32 :: hexlify arg) := by
     rw [a1]; exact splitCmd_noSpace _ _ (by decide)
   have a3 : utf8Valid (lit "AUTH") = true := by decide
   have a4 : parseCmd (lit "AUTH") = .auth := by decide
-  have a5 : splitWs (lit "DBUS_COOKIE_SHA1" ++ 32 :: hexlify user) = [lit "DBUS_COOKIE_SHA1", hexlify user] :=
+  have a5 : splitWs (lit "DBUS_COOKIE_SHA1" ++ 32 :: hexlify arg) = [lit "DBUS_COOKIE_SHA1", hexlify arg] :=
     splitWs_two _ _ (by decide) (hexlify_ne_nil _ hu0) (by unfold NoSpace; decide) (noSpace_hexlify _)
   obtain ⟨w1, c1, cid, k1, k2, k3, k4, k5, k6, k7⟩ :=
-    cookie_step_one_ok s.world CookieSt.init user e rfl hup hun hud
-  have h1 : handle real s (cookieAuthLine user) =
+    cookie_step_one_ok s.world CookieSt.init arg user e rfl hup hun hud
+  have h1 : handle real s (cookieAuthLine arg) =
       ⟨{ s with world := w1, cur := some (lit "DBUS_COOKIE_SHA1", .cookie c1), state := .waitingForData },
         [wData ++ hexlify (s.world.cfg.ctx ++ 32 :: natToDec cid ++ 32 :: c1.challenge)], .ok,
         some (lit "DBUS_COOKIE_SHA1", .challenge (s.world.cfg.ctx ++ 32 :: natToDec cid ++ 32 :: c1.challenge)),
         false⟩ := by
-    simp [handle, a2, a3, a4, authAUTH, hs, a5, real_offers_cookie, stepAuth, decodeResponse_hexlify user hu0 hua,
+    simp [handle, a2, a3, a4, authAUTH, hs, a5, real_offers_cookie, stepAuth, decodeResponse_hexlify arg hu0 hua,
       real_start_cookie, real_step_cookie, k1]
   refine ⟨c1, cid, ?_⟩
   rw [h1]
@@ -324,5 +326,101 @@ theorem cookie_lines (s : Server RealWorld Inst) (user cc : Bytes) (e : PwEnt)
   have f2 : utf8Valid (lit "BEGIN") = true := by decide
   have f3 : parseCmd (lit "BEGIN") = .begin := by decide
   simp [handle, f1, f2, f3, authBEGIN, real_user_cookie, m2, k3]
+
+/-! ## the line forms real clients use -/
+
+/-- `AUTH <mech>` or `AUTH <mech> <hex of an initial response>`. -/
+def authLineOf (mech : Bytes) : Option Bytes → Bytes
+  | none => lit "AUTH " ++ mech
+  | some t => lit "AUTH " ++ (mech ++ 32 :: hexlify t)
+
+/-- An initial response a client may send: absent, or non-empty ASCII text (hex-encoded on the wire). -/
+def GoodResp : Option Bytes → Prop
+  | none => True
+  | some t => t ≠ [] ∧ isAscii t = true
+
+section
+variable {W I : Type} (S : MechSys W I)
+
+/-- `AUTH <offered mech> [<hex>]` in WaitingForAuth starts the mechanism and steps it with the decoded
+response. -/
+theorem handle_authLine (s : Server W I) (mech : Bytes) (resp : Option Bytes)
+    (hs : s.state = .waitingForAuth) (hm0 : mech ≠ []) (hmn : NoSpace mech) (hoff : mech ∈ S.offered)
+    (hr : GoodResp resp) :
+    ∃ r', decodeResponse r' = some resp ∧
+      handle S s (authLineOf mech resp) =
+        stepAuth S { s with world := (S.start s.world mech).1, cur := some (mech, (S.start s.world mech).2) } r' := by
+  have a3 : utf8Valid (lit "AUTH") = true := by decide
+  have a4 : parseCmd (lit "AUTH") = .auth := by decide
+  cases resp with
+  | none =>
+    refine ⟨none, rfl, ?_⟩
+    have a1 : authLineOf mech none = lit "AUTH" ++ 32 :: mech := rfl
+    have a2 : splitCmd (authLineOf mech none) = (lit "AUTH", mech) := by
+      rw [a1]; exact splitCmd_noSpace _ _ (by decide)
+    simp [handle, a2, a3, a4, authAUTH, hs, splitWs_one mech hm0 hmn, hoff]
+  | some t =>
+    refine ⟨some (hexlify t), decodeResponse_hexlify t hr.1 hr.2, ?_⟩
+    have a1 : authLineOf mech (some t) = lit "AUTH" ++ 32 :: (mech ++ 32 :: hexlify t) := rfl
+    have a2 : splitCmd (authLineOf mech (some t)) = (lit "AUTH", mech ++ 32 :: hexlify t) := by
+      rw [a1]; exact splitCmd_noSpace _ _ (by decide)
+    have a5 := splitWs_two mech (hexlify t) hm0 (hexlify_ne_nil _ hr.1) hmn (noSpace_hexlify _)
+    simp [handle, a2, a3, a4, authAUTH, hs, a5, hoff]
+
+/-- NEGOTIATE_UNIX_FD (this bus passes no descriptors): ERROR, nothing changes. -/
+theorem handle_negotiate (s : Server W I) :
+    handle S s (lit "NEGOTIATE_UNIX_FD") = sendError s [] := by
+  have f1 : splitCmd (lit "NEGOTIATE_UNIX_FD") = (lit "NEGOTIATE_UNIX_FD", []) := by decide
+  have f2 : utf8Valid (lit "NEGOTIATE_UNIX_FD") = true := by decide
+  have f3 : parseCmd (lit "NEGOTIATE_UNIX_FD") = .negotiate := by decide
+  simp [handle, f1, f2, f3]
+
+end
+
+/-- ANONYMOUS with or without an initial response (txdbus's own client sends a trace string). -/
+theorem anonymous_lines_gen (s : Server RealWorld Inst) (resp : Option Bytes) (hs : s.state = .waitingForAuth)
+    (hr : GoodResp resp) :
+    (handle real s (authLineOf (lit "ANONYMOUS") resp)).res = .ok ∧
+    (handle real s (authLineOf (lit "ANONYMOUS") resp)).sent = [wOk ++ s.serverGuid] ∧
+    (handle real s (authLineOf (lit "ANONYMOUS") resp)).srv =
+      { s with cur := some (lit "ANONYMOUS", .anon), state := .waitingForBegin } := by
+  obtain ⟨r', h1, h2⟩ := handle_authLine real s (lit "ANONYMOUS") resp hs (by decide) (by unfold NoSpace; decide)
+    real_offers_anonymous hr
+  rw [h2]
+  simp [stepAuth, h1, real_start_anonymous, real_step_anon]
+
+/-- EXTERNAL with or without a claimed identity: the challenge. -/
+theorem external_line_gen (s : Server RealWorld Inst) (resp : Option Bytes) (uid : Int) (e : PwEnt)
+    (hs : s.state = .waitingForAuth) (hr : GoodResp resp)
+    (hc : s.world.cfg.creds = some uid) (hu : getpwuidI s.world.cfg uid = some e) :
+    (handle real s (authLineOf (lit "EXTERNAL") resp)).res = .ok ∧
+    (handle real s (authLineOf (lit "EXTERNAL") resp)).sent = [wData] ∧
+    (handle real s (authLineOf (lit "EXTERNAL") resp)).srv =
+      { s with cur := some (lit "EXTERNAL", .ext true (some uid)), state := .waitingForData } := by
+  obtain ⟨r', h1, h2⟩ := handle_authLine real s (lit "EXTERNAL") resp hs (by decide) (by unfold NoSpace; decide)
+    real_offers_external hr
+  rw [h2]
+  simp [stepAuth, h1, real_start_external, hc, real_step_ext0 _ _ e _ hu, hexlify]
+
+/-- BEGIN in WaitingForBegin with a mechanism whose user name is known authenticates. -/
+theorem begin_line (s : Server RealWorld Inst) (n : Bytes) (i : Inst) (u : Bytes)
+    (hs : s.state = .waitingForBegin) (hc : s.cur = some (n, i)) (hu : real.userName s.world i = some u) :
+    (handle real s (lit "BEGIN")).res = .ok ∧ (handle real s (lit "BEGIN")).srv.authenticated = true ∧
+    (handle real s (lit "BEGIN")).srv.guid = some u := by
+  have f1 : splitCmd (lit "BEGIN") = (lit "BEGIN", []) := by decide
+  have f2 : utf8Valid (lit "BEGIN") = true := by decide
+  have f3 : parseCmd (lit "BEGIN") = .begin := by decide
+  simp [handle, f1, f2, f3, authBEGIN, hs, hc, hu]
+
+/-- DATA (no argument) in WaitingForData for EXTERNAL after its challenge: OK. -/
+theorem external_data_line (s : Server RealWorld Inst) (uid : Int) (e : PwEnt)
+    (hs : s.state = .waitingForData) (hc : s.cur = some (lit "EXTERNAL", .ext true (some uid)))
+    (hu : getpwuidI s.world.cfg uid = some e) :
+    (handle real s (lit "DATA")).res = .ok ∧ (handle real s (lit "DATA")).sent = [wOk ++ s.serverGuid] ∧
+    (handle real s (lit "DATA")).srv = { s with state := .waitingForBegin } := by
+  have d1 : splitCmd (lit "DATA") = (lit "DATA", []) := by decide
+  have d2 : utf8Valid (lit "DATA") = true := by decide
+  have d3 : parseCmd (lit "DATA") = .data := by decide
+  simp [handle, d1, d2, d3, authDATA, hs, stepAuth, hc, decodeResponse, real_step_ext1 _ _ e _ hu]
 
 end Txdbus.AuthServer
